@@ -87,3 +87,23 @@ pub proof fn lemma_only_tmp_keeps_content_ok(pre: World, post: World, cache: Pat
         assert(pre.fs.files.contains_key(p));
     }
 }
+/// states that differ from `mid` only inside <cache>/tmp keep the content area, the index
+/// area and everything outside the cache as they were
+pub proof fn lemma_tmp_states(cache: PathV)
+    ensures
+        forall|mid: Fs, st: Fs| #[trigger] files_same_outside(mid, st, tmp_dir(cache)) ==>
+            (content_ok(mid, cache) ==> content_ok(st, cache))
+            && same_under(mid, st, index_dir(cache)) && same_under(mid, st, content_dir(cache))
+            && files_same_outside(mid, st, cache),
+        forall|mid: Fs, st: Fs, t: PathV| #[trigger] same_except(mid, st, t) && under(t, tmp_dir(cache)) ==> files_same_outside(mid, st, tmp_dir(cache)),
+{
+    lemma_cache_areas_disjoint(cache);
+    assert forall|mid: Fs, st: Fs| #[trigger] files_same_outside(mid, st, tmp_dir(cache)) implies
+        (content_ok(mid, cache) ==> content_ok(st, cache)) && same_under(mid, st, index_dir(cache)) && same_under(mid, st, content_dir(cache)) && files_same_outside(mid, st, cache) by {
+        if content_ok(mid, cache) {
+            assert forall|p: PathV| #[trigger] st.files.contains_key(p) && under(p, content_dir(cache)) implies data_ok(rel_to(p, content_dir(cache)), st.files[p]) by {
+                assert(!under(p, tmp_dir(cache))); assert(mid.files.contains_key(p));
+            }
+        }
+    }
+}
